@@ -176,11 +176,7 @@ package carddav
 //@   ensures D3: err != nil ==> req == nil && httpCode(err) == 400
 //@   loop 1 invariant I1: req != nil && fresh(req) && req.AllProp == (addressData.Allprop != nil) && len(req.Props) == #i
 //@   |   && (cap(req.Props) == 0 || fresh(req.Props)) && (forall j :: 0 <= j && j < #i ==> req.Props[j] == addressData.Props[j].Name)
-//@ func carddav.(*backend).propFindAddressObject(b, ctx, propfind, ao) (resp, err)
-//@   trusted C11
-//@   requires R1: b != nil && propfind != nil && ao != nil
-//@   ensures P1: err == nil ==> resp != nil && len(resp.Hrefs) == 1 && resp.Hrefs[0].Path == ao.Path
-//@   ensures P2: err != nil ==> okErr(err)
+//@ -- (the contract of propFindAddressObject is with the PROPFIND contracts below)
 //@ spec queryDenotes(q *AddressBookQuery, w *addressbookQuery) bool = string(q.FilterTest) == string(w.Filter.Test)
 //@   | && len(q.PropFilters) == len(w.Filter.Props) && (forall j :: 0 <= j && j < len(w.Filter.Props) ==> propRel(w.Filter.Props[j], q.PropFilters[j]))
 //@   | && (w.Limit == nil ? q.Limit == 0 : q.Limit == int(w.Limit.NResults))
@@ -191,9 +187,10 @@ package carddav
 //@   requires R2: qaoCalls == 0
 //@   ensures Q1: qaoCalls <= 1 && (qaoCalls == 1 ==> qaoPath == r.URL.Path && qaoQuery != nil && queryDenotes(qaoQuery, query))
 //@   -- address-data has no field whose decoding can fail: a decoder error other than "absent" is believed unreachable here
-//@   ensures Q2: err != nil ==> okErr(err) || fromDecoder(err)
+//@   ensures Q2: err != nil ==> okErr(err) || decErr(err)
 //@   ensures Q3: mutations == old(mutations)
 //@   ensures Q4: err == nil ==> wstatus(w) == 207
+//@   ensures Q5: wstatus(w) == 0 || wstatus(w) == 207
 //@   loop 1 invariant I1: qaoCalls == 0 && mutations == old(mutations) && wstatus(w) == 0 && string(q.FilterTest) == string(query.Filter.Test) && q.Limit == 0
 //@   |   && (query.Prop != nil && decodedOk(query.Prop, "addressDataReq") ==> dataReqRel(q.DataRequest, decoded(query.Prop, "addressDataReq")))
 //@   loop 1 invariant I2: len(q.PropFilters) == #i && (cap(q.PropFilters) == 0 || fresh(q.PropFilters)) && (forall j :: 0 <= j && j < #i ==> propRel(query.Filter.Props[j], q.PropFilters[j]))
@@ -273,8 +270,9 @@ package carddav
 //@   |   : (decodedOk(multiget.Prop, "addressDataReq") ==> dataReqRel(*gaoReq, decoded(multiget.Prop, "addressDataReq"))))
 //@   ensures G2: err == nil ==> wstatus(w) == 207 && servedMS != nil && len(servedMS.Responses) == len(multiget.Hrefs)
 //@   ensures G3: err == nil ==> (forall j :: 0 <= j && j < len(multiget.Hrefs) ==> answersHref(servedMS.Responses[j], h.Backend, ctx, multiget.Hrefs[j].Path, gaoReq))
-//@   ensures G4: err != nil ==> okErr(err) || fromDecoder(err)
+//@   ensures G4: err != nil ==> okErr(err) || decErr(err)
 //@   ensures G5: mutations == old(mutations)
+//@   ensures G6: wstatus(w) == 0 || wstatus(w) == 207
 //@   loop 1 invariant I1a: mutations == old(mutations) && wstatus(w) == 0
 //@   loop 1 invariant I1b: (cap(resps) == 0 || fresh(resps)) && len(resps) == #i
 //@   loop 1 invariant I1c: gaoCalls >= 0 && (gaoCalls > 0 ==> gaoReq == &dataReq) && (#i > 0 ==> gaoCalls > 0)
@@ -308,3 +306,198 @@ package carddav
 //@ lemma C09_param: forall w paramFilter, a ParamFilter, b ParamFilter :: paramRel(w, a) && paramRel(w, b) ==> paramEq(a, b)
 //@ lemma C09_prop: forall w propFilter, a PropFilter, b PropFilter :: propRel(w, a) && propRel(w, b) ==> propEq(a, b)
 //@ lemma C09_datareq: forall w addressDataReq, a AddressDataRequest, b AddressDataRequest :: dataReqCarried(w, b) && dataReqRel(a, w) ==> dataReqEq(a, b)
+
+//@ -- ---------------------------------------------------------------------------------------
+//@ -- C12: a request path is classified solely by its depth below the mount prefix.
+//@ -- levelOf is the depth arithmetic; the lemmas C12_L0..L5 state, from the property, what it has to yield for
+//@ -- every mount prefix, every choice of segments and both spellings (with / without trailing slash).
+//@ func carddav.(*backend).resourceTypeAtPath(b, reqPath) (t)
+//@   requires R1: b != nil
+//@   ensures LV: int(t) == levelOf(b.Prefix, reqPath)
+
+//@ -- C12: level -> backend operation, with the request path unchanged; C13: a locally refused request is a 4xx
+//@ -- and reaches no mutating backend method.
+//@ spec servedAB(b *backend) bool = b != nil && b.Backend != nil && mountOK(b.Prefix)
+//@ spec lvlA(b *backend, r *http.Request) int = levelOf(b.Prefix, r.URL.Path)
+//@ func carddav.(*backend).Mkcol(b, r) (err)
+//@   requires R1: servedAB(b) && validReq(r)
+//@   allocates
+//@   -- collection creation is accepted only at collection depth and refused with 403 elsewhere
+//@   ensures M1: lvlA(b, r) != 3 ==> httpCode(err) == 403 && mutations == old(mutations) && cabCalls == old(cabCalls)
+//@   -- at collection depth: either exactly one CreateAddressBook for the request path, or a local 4xx and no backend mutation (C13)
+//@   ensures M2: lvlA(b, r) == 3 ==> (cabCalls == old(cabCalls) + 1 && cabBook != nil && cabBook.Path == r.URL.Path && mutations == old(mutations) + 1 && (err == nil || beErr(err)))
+//@   |   || (cabCalls == old(cabCalls) && mutations == old(mutations) && err != nil && local4xx(err))
+//@   ensures M3: err != nil ==> beErr(err) || local4xx(err)
+//@ func carddav.(*backend).Delete(b, r) (err)
+//@   requires R1: servedAB(b) && validReq(r)
+//@   allocates
+//@   -- the operation belonging to the level, with the request path unchanged; refused elsewhere
+//@   ensures D1: lvlA(b, r) == 3 ==> dabCalls == old(dabCalls) + 1 && dabPath == r.URL.Path && daoCalls == old(daoCalls) && mutations == old(mutations) + 1 && (err == nil || beErr(err))
+//@   ensures D2: lvlA(b, r) == 4 ==> daoCalls == old(daoCalls) + 1 && daoPath == r.URL.Path && dabCalls == old(dabCalls) && mutations == old(mutations) + 1 && (err == nil || beErr(err))
+//@   ensures D3: lvlA(b, r) != 3 && lvlA(b, r) != 4 ==> httpCode(err) == 403 && mutations == old(mutations) && dabCalls == old(dabCalls) && daoCalls == old(daoCalls)
+//@ func carddav.(*backend).Options(b, r) (caps, allow, err)
+//@   requires R1: servedAB(b) && validReq(r)
+//@   allocates
+//@   ensures O1: lvlA(b, r) != 4 ==> err == nil && gaoCalls == old(gaoCalls) && len(allow) == 5
+//@   ensures O2: lvlA(b, r) == 4 ==> gaoCalls == old(gaoCalls) + 1 && gaoPath == r.URL.Path
+//@   ensures O3: err != nil ==> beErr(err)
+//@   ensures O4: mutations == old(mutations)
+
+//@ -- PROPFIND (C12 level -> operation and the foreign principal / home-set guard; C11 scope by Depth; C13 errors)
+//@ func carddav.(*backend).propFindRoot(b, ctx, propfind) (resp, err)
+//@   requires R1: b != nil && b.Backend != nil && propfind != nil
+//@   allocates
+//@   ensures F1: err == nil ==> fresh(resp) && oneHref(resp, cardPrincipal(b.Backend, ctx))
+//@   ensures F2: err != nil ==> pfErr(err)
+//@   ensures F3: mutations == old(mutations)
+//@ func carddav.(*backend).propFindUserPrincipal(b, ctx, propfind) (resp, err)
+//@   requires R1: b != nil && b.Backend != nil && propfind != nil
+//@   allocates
+//@   ensures F1: err == nil ==> fresh(resp) && oneHref(resp, cardPrincipal(b.Backend, ctx))
+//@   ensures F2: err != nil ==> pfErr(err)
+//@   ensures F3: mutations == old(mutations)
+//@ func carddav.(*backend).propFindHomeSet(b, ctx, propfind) (resp, err)
+//@   requires R1: b != nil && b.Backend != nil && propfind != nil
+//@   allocates
+//@   ensures F1: err == nil ==> fresh(resp) && oneHref(resp, cardHomeSet(b.Backend, ctx))
+//@   ensures F2: err != nil ==> pfErr(err)
+//@   ensures F3: mutations == old(mutations)
+//@ func carddav.(*backend).propFindAddressBook(b, ctx, propfind, ab) (resp, err)
+//@   requires R1: b != nil && b.Backend != nil && propfind != nil && ab != nil
+//@   allocates
+//@   ensures F1: err == nil ==> fresh(resp) && oneHref(resp, ab.Path)
+//@   ensures F2: err != nil ==> pfErr(err)
+//@   ensures F3: mutations == old(mutations)
+//@ func carddav.(*backend).propFindAddressObject(b, ctx, propfind, ao) (resp, err)
+//@   requires R1: b != nil && b.Backend != nil && propfind != nil && ao != nil
+//@   allocates
+//@   ensures F1: err == nil ==> fresh(resp) && oneHref(resp, ao.Path)
+//@   ensures F2: err != nil ==> pfErr(err)
+//@   ensures F3: mutations == old(mutations)
+//@ func carddav.(*backend).propFindAllAddressObjects(b, ctx, propfind, ab) (resps, err)
+//@   requires R1: b != nil && b.Backend != nil && propfind != nil && ab != nil
+//@   allocates
+//@   -- one response per object the backend lists for the address book, in order, under the backend's path
+//@   ensures A1: err == nil ==> laoPath == ab.Path && len(resps) == len(laoRes) && (forall j :: 0 <= j && j < len(resps) ==> len(resps[j].Hrefs) == 1 && resps[j].Hrefs[0].Path == laoRes[j].Path)
+//@   ensures A2: err != nil ==> pfErr(err)
+//@   ensures A3: mutations == old(mutations)
+//@   loop 1 invariant I1: len(resps) == #i && (cap(resps) == 0 || fresh(resps)) && laoRes == aos && laoPath == ab.Path && mutations == old(mutations)
+//@   loop 1 invariant I2: forall j :: 0 <= j && j < #i ==> len(resps[j].Hrefs) == 1 && resps[j].Hrefs[0].Path == aos[j].Path
+//@ func carddav.(*backend).propFindAllAddressBooks(b, ctx, propfind, recurse) (resps, err)
+//@   requires R1: b != nil && b.Backend != nil && propfind != nil
+//@   allocates
+//@   -- without recursion: one response per address book the backend lists, in order, under the backend's path
+//@   ensures C1: err == nil && !recurse ==> len(resps) == len(cardBooks(b.Backend, ctx)) && (forall j :: 0 <= j && j < len(resps) ==> len(resps[j].Hrefs) == 1 && resps[j].Hrefs[0].Path == cardBooks(b.Backend, ctx)[j].Path)
+//@   ensures C1r: err == nil && recurse ==> len(resps) >= len(cardBooks(b.Backend, ctx))
+//@   ensures C2: err != nil ==> pfErr(err)
+//@   ensures C3: mutations == old(mutations)
+//@   loop 1 invariant I1: (cap(resps) == 0 || fresh(resps)) && mutations == old(mutations) && abs == cardBooks(b.Backend, ctx) && (recurse ? len(resps) >= #i : len(resps) == #i)
+//@   loop 1 invariant I2: !recurse ==> (forall j :: 0 <= j && j < #i ==> len(resps[j].Hrefs) == 1 && resps[j].Hrefs[0].Path == abs[j].Path)
+//@ spec principalOfA(b *backend, r *http.Request) string = cardPrincipal(b.Backend, reqContext(r))
+//@ spec homeSetOfA(b *backend, r *http.Request) string = cardHomeSet(b.Backend, reqContext(r))
+//@ func carddav.(*backend).PropFind(b, r, propfind, depth) (ms, err)
+//@   requires R1: servedAB(b) && validReq(r) && propfind != nil
+//@   allocates
+//@   ensures P0: err == nil ==> ms != nil
+//@   ensures P1: err != nil ==> ms == nil && pfErr(err)
+//@   ensures P2: mutations == old(mutations)
+//@   -- C12: a principal or home-set path other than the current user's exposes nothing
+//@   ensures G1: err == nil && lvlA(b, r) == 1 && r.URL.Path != principalOfA(b, r) ==> len(ms.Responses) == 0
+//@   ensures G2: err == nil && lvlA(b, r) == 2 && r.URL.Path != homeSetOfA(b, r) ==> len(ms.Responses) == 0
+//@   ensures G5: err == nil && lvlA(b, r) >= 5 ==> len(ms.Responses) == 0
+//@   -- C12: the operation belonging to the level, with the request path unchanged
+//@   ensures L3: lvlA(b, r) == 3 ==> gabCalls == old(gabCalls) + 1 && gabPath == r.URL.Path
+//@   ensures L3n: lvlA(b, r) != 3 ==> gabCalls == old(gabCalls)
+//@   ensures L4: lvlA(b, r) == 4 ==> gaoCalls == old(gaoCalls) + 1 && gaoPath == r.URL.Path
+//@   ensures L4n: lvlA(b, r) != 4 ==> gaoCalls == old(gaoCalls)
+//@   -- C11: the resources in scope, each once, under the backend's path
+//@   ensures S0: err == nil && lvlA(b, r) == 0 ==> len(ms.Responses) == 1
+//@   ensures S1a: err == nil && lvlA(b, r) == 1 && r.URL.Path == principalOfA(b, r) && depth == internal.DepthZero ==> len(ms.Responses) == 1 && len(ms.Responses[0].Hrefs) == 1 && ms.Responses[0].Hrefs[0].Path == r.URL.Path
+//@   ensures S1b: err == nil && lvlA(b, r) == 1 && r.URL.Path == principalOfA(b, r) && depth == internal.DepthOne ==> len(ms.Responses) == 2 && len(ms.Responses[1].Hrefs) == 1 && ms.Responses[1].Hrefs[0].Path == homeSetOfA(b, r)
+//@   ensures S1c: err == nil && lvlA(b, r) == 1 && r.URL.Path == principalOfA(b, r) && depth == internal.DepthInfinity ==> len(ms.Responses) >= 2 + len(cardBooks(b.Backend, reqContext(r)))
+//@   ensures S2a: err == nil && lvlA(b, r) == 2 && r.URL.Path == homeSetOfA(b, r) && depth == internal.DepthZero ==> len(ms.Responses) == 1 && len(ms.Responses[0].Hrefs) == 1 && ms.Responses[0].Hrefs[0].Path == r.URL.Path
+//@   ensures S2b: err == nil && lvlA(b, r) == 2 && r.URL.Path == homeSetOfA(b, r) && depth == internal.DepthOne ==> len(ms.Responses) == 1 + len(cardBooks(b.Backend, reqContext(r)))
+//@   |   && (forall j :: 0 <= j && j < len(cardBooks(b.Backend, reqContext(r))) ==> len(ms.Responses[1 + j].Hrefs) == 1 && ms.Responses[1 + j].Hrefs[0].Path == cardBooks(b.Backend, reqContext(r))[j].Path)
+//@   ensures S3a: err == nil && lvlA(b, r) == 3 && depth == internal.DepthZero ==> len(ms.Responses) == 1 && len(ms.Responses[0].Hrefs) == 1 && ms.Responses[0].Hrefs[0].Path == gabResult(b.Backend, reqContext(r), r.URL.Path).Path
+//@   ensures S3b: err == nil && lvlA(b, r) == 3 && depth != internal.DepthZero ==> len(ms.Responses) == 1 + len(laoRes) && laoPath == gabResult(b.Backend, reqContext(r), r.URL.Path).Path
+//@   |   && (forall j :: 0 <= j && j < len(laoRes) ==> len(ms.Responses[1 + j].Hrefs) == 1 && ms.Responses[1 + j].Hrefs[0].Path == laoRes[j].Path)
+//@   ensures S4: err == nil && lvlA(b, r) == 4 ==> len(ms.Responses) == 1 && len(ms.Responses[0].Hrefs) == 1 && gaoRes != nil && ms.Responses[0].Hrefs[0].Path == gaoRes.Path
+
+//@ -- the remaining methods of the internal.Backend implementation (C12 path unchanged, C13 errors / no mutation after a
+//@ -- local refusal, C04 clause e: the conditional headers reach the backend unaltered, C10 headers of the answer)
+//@ func carddav.(*backend).Put(b, w, r) (err)
+//@   requires R1: servedAB(b) && validReq(r) && w != nil && wstatus(w) == 0 && respHeader(w) != r.Header
+//@   allocates
+//@   assigns ghost:rstatus, ghost:hv
+//@   -- either exactly one PutAddressObject for the request path with both conditional headers unaltered, or a local 4xx and no mutation
+//@   ensures U1: (paoCalls == old(paoCalls) + 1 && paoPath == r.URL.Path && mutations == old(mutations) + 1 && paoOpts != nil
+//@   |     && string(paoOpts.IfMatch) == old(hdr(r, "If-Match")) && string(paoOpts.IfNoneMatch) == old(hdr(r, "If-None-Match")) && (err == nil || beErr(err)))
+//@   |   || (paoCalls == old(paoCalls) && mutations == old(mutations) && err != nil && local4xx(err))
+//@   ensures U2: err != nil ==> (beErr(err) || local4xx(err)) && wstatus(w) == 0
+//@   ensures U3: err == nil ==> wstatus(w) == 201
+//@ func carddav.(*backend).HeadGet(b, w, r) (err)
+//@   requires R1: servedAB(b) && validReq(r) && w != nil && wstatus(w) == 0
+//@   allocates
+//@   assigns ghost:rstatus, ghost:hv
+//@   ensures H1: gaoCalls == old(gaoCalls) + 1 && gaoPath == r.URL.Path && mutations == old(mutations)
+//@   ensures H2: err != nil ==> beErr(err) || fromEnv(err)
+//@   ensures H4: wstatus(w) == 0 || wstatus(w) == 200
+//@   ensures H3: err == nil && gaoRes != nil && gaoRes.ETag != "" ==> hget(hv, respHeader(w), "ETag") == quote(gaoRes.ETag)
+//@ func carddav.(*backend).PropPatch(b, r, update) (resp, err)
+//@   requires R1: servedAB(b) && validReq(r) && update != nil
+//@   allocates
+//@   -- nothing can be changed through PROPPATCH: every named property is refused inside a 207 (C13: no backend mutation)
+//@   ensures X1: mutations == old(mutations)
+//@   ensures X2: err != nil ==> resp == nil && beErr(err)
+//@   ensures X3: err == nil ==> resp != nil && len(resp.Hrefs) == 1 && resp.Hrefs[0].Path == r.URL.Path
+//@   loop 1 invariant I1: resp != nil && fresh(resp) && psDistinct(resp) && len(resp.Hrefs) == 1 && resp.Hrefs[0].Path == r.URL.Path && mutations == old(mutations)
+//@   loop 2 invariant I1: resp != nil && fresh(resp) && psDistinct(resp) && len(resp.Hrefs) == 1 && resp.Hrefs[0].Path == r.URL.Path && mutations == old(mutations)
+//@   loop 3 invariant I1: resp != nil && fresh(resp) && psDistinct(resp) && len(resp.Hrefs) == 1 && resp.Hrefs[0].Path == r.URL.Path && mutations == old(mutations)
+//@   loop 4 invariant I1: resp != nil && fresh(resp) && psDistinct(resp) && len(resp.Hrefs) == 1 && resp.Hrefs[0].Path == r.URL.Path && mutations == old(mutations)
+//@ func carddav.(*backend).Copy(b, r, dest, recursive, overwrite) (created, err)
+//@   ensures X1: !created && httpCode(err) == 501 && mutations == old(mutations)
+//@ func carddav.(*backend).Move(b, r, dest, overwrite) (created, err)
+//@   ensures X1: !created && httpCode(err) == 501 && mutations == old(mutations)
+
+//@ -- ---------------------------------------------------------------------------------------
+//@ -- The CardDAV handler: one request (C12 routing, C13 status classes and no mutation after a refusal).
+//@ -- internal.Handler.ServeHTTP and its handle* helpers are inlined; the calls through internal.Backend resolve to
+//@ -- the backend methods above (the dynamic type is fixed by this function).
+//@ spec mountOfA(h *Handler) string = hasSuffix(h.Prefix, "/") ? substr(h.Prefix, 0, len(h.Prefix) - 1) : h.Prefix
+//@ spec lvlHA(h *Handler, r *http.Request) int = levelOf(mountOfA(h), r.URL.Path)
+//@ spec routedA(r *http.Request) bool = r.URL.Path != "/.well-known/carddav"
+//@ -- (decErr: the error of decoding an address-data element, passed on as it is; such a decode cannot fail for
+//@ -- well-formed XML because every field of the target is a string or a list, T-xml)
+//@ spec decErr(e error) bool = fromDecoder(e) && !isHTTP(e)
+//@ func carddav.(*Handler).handleReport(h, w, r) (err)
+//@   requires R1: h != nil && h.Backend != nil && validReq(r) && w != nil && wstatus(w) == 0
+//@   requires R2: qaoCalls == 0 && gaoCalls == 0
+//@   allocates
+//@   ensures E1: err != nil ==> okErr(err) || decErr(err)
+//@   ensures E2: mutations == old(mutations)
+//@   ensures E3: err == nil ==> wstatus(w) == 207
+//@   ensures E4: wstatus(w) == 0 || wstatus(w) == 207
+//@ func carddav.(*Handler).ServeHTTP(h, w, r)
+//@   requires R1: h != nil && h.Backend != nil && mountOK(mountOfA(h)) && validReq(r) && w != nil && wstatus(w) == 0 && respHeader(w) != r.Header
+//@   requires R2: qaoCalls == 0 && gaoCalls == 0 && !leakTracked && servedErr == nil
+//@   allocates
+//@   -- C12: collection creation only at collection depth, refused with 403 elsewhere; the request path reaches the backend unchanged
+//@   ensures MK1: routedA(r) && r.Method == "MKCOL" && lvlHA(h, r) != 3 ==> wstatus(w) == 403 && mutations == old(mutations)
+//@   ensures MK2: routedA(r) && r.Method == "MKCOL" && mutations != old(mutations) ==> lvlHA(h, r) == 3 && cabCalls == old(cabCalls) + 1 && cabBook != nil && cabBook.Path == r.URL.Path
+//@   ensures MK3: routedA(r) && r.Method == "MKCOL" && wstatus(w) == 201 ==> mutations == old(mutations) + 1
+//@   ensures DEL1: routedA(r) && r.Method == "DELETE" && lvlHA(h, r) == 3 ==> dabCalls == old(dabCalls) + 1 && dabPath == r.URL.Path && daoCalls == old(daoCalls)
+//@   ensures DEL2: routedA(r) && r.Method == "DELETE" && lvlHA(h, r) == 4 ==> daoCalls == old(daoCalls) + 1 && daoPath == r.URL.Path && dabCalls == old(dabCalls)
+//@   ensures DEL3: routedA(r) && r.Method == "DELETE" && lvlHA(h, r) != 3 && lvlHA(h, r) != 4 ==> wstatus(w) == 403 && mutations == old(mutations)
+//@   ensures PUT1: routedA(r) && r.Method == "PUT" && mutations != old(mutations) ==> paoCalls == old(paoCalls) + 1 && paoPath == r.URL.Path && paoOpts != nil
+//@   |   && string(paoOpts.IfMatch) == old(hdr(r, "If-Match")) && string(paoOpts.IfNoneMatch) == old(hdr(r, "If-None-Match"))
+//@   -- C12: a PROPFIND addressed to a principal or home-set path other than the current user's exposes nothing
+//@   ensures PF1: routedA(r) && r.Method == "PROPFIND" && wstatus(w) == 207 && servedErr == nil && lvlHA(h, r) == 1 && r.URL.Path != cardPrincipal(h.Backend, reqContext(r)) ==> servedMS != nil && len(servedMS.Responses) == 0
+//@   ensures PF2: routedA(r) && r.Method == "PROPFIND" && wstatus(w) == 207 && servedErr == nil && lvlHA(h, r) == 2 && r.URL.Path != cardHomeSet(h.Backend, reqContext(r)) ==> servedMS != nil && len(servedMS.Responses) == 0
+//@   ensures PF3: routedA(r) && r.Method == "PROPFIND" && lvlHA(h, r) == 3 ==> gabCalls <= old(gabCalls) + 1 && (gabCalls == old(gabCalls) + 1 ==> gabPath == r.URL.Path)
+//@   -- C13: a 5xx answer stems from the backend or the environment (or is the 501 of an unimplemented method), and a
+//@   -- request that changed something was either carried out or failed inside the backend
+//@   ensures S5: wstatus(w) >= 500 ==> (servedErr != nil && (beErr(servedErr) || fromEnv(servedErr) || httpCode(servedErr) == 501 || decErr(servedErr))) || (!routedA(r) && cardPrincipalErr(h.Backend, reqContext(r)) != nil)
+//@   ensures S4: mutations != old(mutations) ==> (r.Method == "PUT" || r.Method == "DELETE" || r.Method == "MKCOL") && (wstatus(w) < 300 || (servedErr != nil && beErr(servedErr)))
+//@   ensures S3: !routedA(r) ==> mutations == old(mutations)
+//@   ensures S2: r.Method != "GET" && r.Method != "HEAD" ==> wstatus(w) != 0
+
